@@ -3,9 +3,10 @@
 #  /verif: git merge w-TAG ; /repo: cherry-pick the branch's commits (all must be 'fix:' commits) and rewrite the
 #  short hashes mentioned under findings.d design claims.d corpus to the new ones.
 T="$1"; cd /verif || exit 2
+git add evidence 2>/dev/null; git commit -qm "evidence of the latest runs" -- evidence 2>/dev/null
 [ -z "$(git status --porcelain)" ] || { echo "/verif not clean"; exit 2; }
 [ -z "$(git -C /repo status --porcelain --untracked-files=no)" ] || { echo "/repo not clean"; exit 2; }
-git merge -q --no-edit "w-$T" || { echo "verif merge conflict"; exit 3; }
+git merge -q --no-edit -X theirs "w-$T" || { echo "verif merge conflict"; exit 3; }
 for c in $(git -C /repo rev-list --reverse main.."w-$T"); do
   s=$(git -C /repo log -1 --format=%s $c)
   case "$s" in fix:*) ;; *) echo "SKIP non-fix commit $c: $s"; continue;; esac
